@@ -86,4 +86,223 @@ theorem ensemble_predict_eq_aggregate (agg : Option Agg) (names : List String) (
     intro i hi
     exact aggregate_getElem a ps i hi
 
+/-! ### TransformedTargetForecaster -/
+
+theorem pipeline_fit_ok (fixed : Bool) (Ts : List Transformer) (F : Forecaster)
+    (st0 : (pipelineG fixed Ts F).S) (y : Series) (fh : Option Horizon)
+    (b : Base) (st : Option (TStates Ts × F.S)) (log : Log)
+    (h : ((pipelineG fixed Ts F).fit st0 y fh).run = .ok ((b, st), log)) :
+    ∃ ts s yt l1 l2, st = some (ts, s) ∧ (fitChain Ts y).run = .ok ((ts, yt), l1) ∧
+      (F.fit F.init yt fh).run = .ok (s, l2) ∧ log = l1 ++ l2 ∧ b.fh = effFh st0.1.fh fh := by
+  obtain ⟨b0, s0⟩ := st0
+  simp only [pipelineG] at h
+  obtain ⟨b1, hb1, h⟩ := lift_bind_eq_ok.mp h
+  obtain ⟨b2, hb2, h⟩ := lift_bind_eq_ok.mp h
+  obtain ⟨⟨ts, yt⟩, l1, l2, h1, h2, rfl⟩ := bind_eq_ok.mp h
+  obtain ⟨s, l3, l4, h3, h4, rfl⟩ := bind_eq_ok.mp h2
+  obtain ⟨heq, rfl⟩ := pure_eq_ok.mp h4
+  simp only [Prod.mk.injEq] at heq
+  obtain ⟨rfl, rfl⟩ := heq
+  refine ⟨ts, s, yt, l1, l3, rfl, h1, h3, by simp, ?_⟩
+  obtain ⟨rfl, _⟩ := Base.setYX_ok hb1
+  obtain ⟨rfl, _⟩ := Base.setFhOpt_ok hb2
+  rfl
+
+theorem pipeline_predict_ok (fixed : Bool) (Ts : List Transformer) (F : Forecaster)
+    (b : Base) (ts : TStates Ts) (s : F.S) (fh : Option Horizon)
+    (b' : Base) (st' : Option (TStates Ts × F.S)) (out : Series) (log : Log)
+    (h : ((pipelineG fixed Ts F).predict (b, some (ts, s)) fh).run = .ok (((b', st'), out), log)) :
+    ∃ f s' p l1 l2, effFh b.fh fh = some f ∧ b' = { b with fh := some f } ∧ st' = some (ts, s') ∧
+      (F.predict s (some f)).run = .ok ((s', p), l1) ∧ (inverseChain Ts ts p).run = .ok (out, l2) ∧
+      log = l1 ++ l2 := by
+  simp only [pipelineG] at h
+  obtain ⟨_, _, h⟩ := lift_bind_eq_ok.mp h
+  obtain ⟨b1, hb1, h⟩ := lift_bind_eq_ok.mp h
+  obtain ⟨f, hf, h⟩ := lift_bind_eq_ok.mp h
+  obtain ⟨⟨s', p⟩, l1, l2, h1, h2, rfl⟩ := bind_eq_ok.mp h
+  obtain ⟨p', l3, l4, h3, h4, rfl⟩ := bind_eq_ok.mp h2
+  obtain ⟨heq, rfl⟩ := pure_eq_ok.mp h4
+  simp only [Prod.mk.injEq] at heq
+  obtain ⟨⟨rfl, rfl⟩, rfl⟩ := heq
+  obtain ⟨rfl, _⟩ := Base.setFhOpt_ok hb1
+  have hfh := Base.getFh_ok hf
+  simp only at hfh
+  exact ⟨f, s', p, l1, l3, hfh, by rw [hfh], rfl, h1, h3, by simp⟩
+
+theorem pipeline_update_raw_ok (Ts : List Transformer) (F : Forecaster)
+    (b : Base) (ts : TStates Ts) (s : F.S) (y : Series) (up : Bool)
+    (b' : Base) (st' : Option (TStates Ts × F.S)) (log : Log)
+    (h : ((pipelineG false Ts F).update (b, some (ts, s)) y up).run = .ok ((b', st'), log)) :
+    ∃ ts' s' l1 l2, b' = b.updateYX y ∧ st' = some (ts', s') ∧
+      (updateChainRaw Ts ts y up).run = .ok (ts', l1) ∧ (F.update s y up).run = .ok (s', l2) ∧
+      log = l1 ++ l2 := by
+  simp only [pipelineG] at h
+  obtain ⟨_, _, h⟩ := lift_bind_eq_ok.mp h
+  simp only [Bool.false_eq_true, ↓reduceIte] at h
+  obtain ⟨ts', l1, l2, h1, h2, rfl⟩ := bind_eq_ok.mp h
+  obtain ⟨s', l3, l4, h3, h4, rfl⟩ := bind_eq_ok.mp h2
+  obtain ⟨heq, rfl⟩ := pure_eq_ok.mp h4
+  simp only [Prod.mk.injEq] at heq
+  obtain ⟨rfl, rfl⟩ := heq
+  exact ⟨ts', s', l1, l3, rfl, rfl, h1, h3, by simp⟩
+
+theorem pipeline_update_fixed_ok (Ts : List Transformer) (F : Forecaster)
+    (b : Base) (ts : TStates Ts) (s : F.S) (y : Series) (up : Bool)
+    (b' : Base) (st' : Option (TStates Ts × F.S)) (log : Log)
+    (h : ((pipelineG true Ts F).update (b, some (ts, s)) y up).run = .ok ((b', st'), log)) :
+    ∃ ts' yt s' l1 l2, b' = b.updateYX y ∧ st' = some (ts', s') ∧
+      (updateChainT Ts ts y up).run = .ok ((ts', yt), l1) ∧ (F.update s yt up).run = .ok (s', l2) ∧
+      log = l1 ++ l2 := by
+  simp only [pipelineG] at h
+  obtain ⟨_, _, h⟩ := lift_bind_eq_ok.mp h
+  simp only [↓reduceIte] at h
+  obtain ⟨⟨ts', yt⟩, l1, l2, h1, h2, rfl⟩ := bind_eq_ok.mp h
+  obtain ⟨s', l3, l4, h3, h4, rfl⟩ := bind_eq_ok.mp h2
+  obtain ⟨heq, rfl⟩ := pure_eq_ok.mp h4
+  simp only [Prod.mk.injEq] at heq
+  obtain ⟨rfl, rfl⟩ := heq
+  exact ⟨ts', yt, s', l1, l3, rfl, rfl, h1, h3, by simp⟩
+
+/-! ### MultiplexForecaster -/
+
+theorem mux_fit_ok (chk : Except Err Unit) (F : Forecaster)
+    (st0 : (muxOn chk F).S) (y : Series) (fh : Option Horizon)
+    (b : Base) (st : Option F.S) (log : Log)
+    (h : ((muxOn chk F).fit st0 y fh).run = .ok ((b, st), log)) :
+    ∃ s, st = some s ∧ (F.fit F.init y fh).run = .ok (s, log) ∧ b.fh = effFh st0.1.fh fh ∧ chk = .ok () := by
+  obtain ⟨b0, s0⟩ := st0
+  simp only [muxOn] at h
+  obtain ⟨b1, hb1, h⟩ := lift_bind_eq_ok.mp h
+  obtain ⟨b2, hb2, h⟩ := lift_bind_eq_ok.mp h
+  obtain ⟨_, hchk, h⟩ := lift_bind_eq_ok.mp h
+  obtain ⟨s, l1, l2, h1, h2, rfl⟩ := bind_eq_ok.mp h
+  obtain ⟨heq, rfl⟩ := pure_eq_ok.mp h2
+  simp only [Prod.mk.injEq] at heq
+  obtain ⟨rfl, rfl⟩ := heq
+  refine ⟨s, rfl, by simpa using h1, ?_, hchk⟩
+  obtain ⟨rfl, _⟩ := Base.setYX_ok hb1
+  obtain ⟨rfl, _⟩ := Base.setFhOpt_ok hb2
+  rfl
+
+theorem mux_update_ok (chk : Except Err Unit) (F : Forecaster)
+    (b : Base) (s : F.S) (y : Series) (up : Bool) (b' : Base) (st' : Option F.S) (log : Log)
+    (h : ((muxOn chk F).update (b, some s) y up).run = .ok ((b', st'), log)) :
+    ∃ s', st' = some s' ∧ b' = b.updateYX y ∧ (F.update s y up).run = .ok (s', log) := by
+  simp only [muxOn] at h
+  obtain ⟨_, _, h⟩ := lift_bind_eq_ok.mp h
+  obtain ⟨s', l1, l2, h1, h2, rfl⟩ := bind_eq_ok.mp h
+  obtain ⟨heq, rfl⟩ := pure_eq_ok.mp h2
+  simp only [Prod.mk.injEq] at heq
+  obtain ⟨rfl, rfl⟩ := heq
+  exact ⟨s', rfl, rfl, by simpa using h1⟩
+
+theorem mux_predict_ok (chk : Except Err Unit) (F : Forecaster)
+    (b : Base) (s : F.S) (fh : Option Horizon) (b' : Base) (st' : Option F.S) (out : Series) (log : Log)
+    (h : ((muxOn chk F).predict (b, some s) fh).run = .ok (((b', st'), out), log)) :
+    ∃ f s', effFh b.fh fh = some f ∧ b' = { b with fh := some f } ∧ st' = some s' ∧
+      (F.predict s (some f)).run = .ok ((s', out), log) := by
+  simp only [muxOn] at h
+  obtain ⟨_, _, h⟩ := lift_bind_eq_ok.mp h
+  obtain ⟨b1, hb1, h⟩ := lift_bind_eq_ok.mp h
+  obtain ⟨f, hf, h⟩ := lift_bind_eq_ok.mp h
+  obtain ⟨⟨s', p⟩, l1, l2, h1, h2, rfl⟩ := bind_eq_ok.mp h
+  obtain ⟨heq, rfl⟩ := pure_eq_ok.mp h2
+  simp only [Prod.mk.injEq] at heq
+  obtain ⟨⟨rfl, rfl⟩, rfl⟩ := heq
+  obtain ⟨rfl, _⟩ := Base.setFhOpt_ok hb1
+  have hfh := Base.getFh_ok hf
+  simp only at hfh
+  exact ⟨f, s', hfh, by rw [hfh], rfl, by simpa using h1⟩
+
+/-! ### StackingForecaster -/
+
+theorem stack_fit_ok (names : List String) (Fs : List Forecaster) (G : Regressor)
+    (st0 : (stacking names Fs G).S) (y : Series) (fh : Option Horizon)
+    (b : Base) (st : Option (States Fs × G.S)) (log : Log)
+    (h : ((stacking names Fs G).fit st0 y fh).run = .ok ((b, st), log)) :
+    ∃ f train test yF yM ss ss' ps g ss2 l1 l2 l3 l4,
+      b.fh = some f ∧ b.y = y ∧ holdoutSplit y.length f = .ok (train, test) ∧
+      iloc y train = .ok yF ∧ iloc y test = .ok yM ∧
+      (fitAll Fs yF (some f)).run = .ok (ss, l1) ∧ (predictAll Fs ss none).run = .ok ((ss', ps), l2) ∧
+      (G.fit G.init (rowsOf (nRows ps) ps) (values yM)).run = .ok (g, l3) ∧
+      (fitAll Fs y (some f)).run = .ok (ss2, l4) ∧ st = some (ss2, g) ∧ log = l1 ++ l2 ++ l3 ++ l4 := by
+  obtain ⟨b0, s0⟩ := st0
+  simp only [stacking] at h
+  obtain ⟨b1, hb1, h⟩ := lift_bind_eq_ok.mp h
+  obtain ⟨b2, hb2, h⟩ := lift_bind_eq_ok.mp h
+  obtain ⟨_, _, h⟩ := lift_bind_eq_ok.mp h
+  obtain ⟨f, hf, h⟩ := lift_bind_eq_ok.mp h
+  obtain ⟨⟨train, test⟩, hsp, h⟩ := lift_bind_eq_ok.mp h
+  obtain ⟨yF, hyF, h⟩ := lift_bind_eq_ok.mp h
+  obtain ⟨yM, hyM, h⟩ := lift_bind_eq_ok.mp h
+  obtain ⟨ss, l1, l2, h1, h2, rfl⟩ := bind_eq_ok.mp h
+  obtain ⟨⟨ss', ps⟩, l3, l4, h3, h4, rfl⟩ := bind_eq_ok.mp h2
+  obtain ⟨g, l5, l6, h5, h6, rfl⟩ := bind_eq_ok.mp h4
+  obtain ⟨ss2, l7, l8, h7, h8, rfl⟩ := bind_eq_ok.mp h6
+  obtain ⟨heq, rfl⟩ := pure_eq_ok.mp h8
+  simp only [Prod.mk.injEq] at heq
+  obtain ⟨rfl, rfl⟩ := heq
+  have hfh := Base.getFh_ok hf
+  have hy : b2.y = y := by
+    obtain ⟨rfl, _⟩ := Base.setYX_ok hb1
+    unfold Base.setFhReq at hb2
+    cases fh with
+    | none =>
+      simp only at hb2
+      split at hb2
+      · cases hb2; rfl
+      · cases hb2
+    | some raw =>
+      simp only [bind, Except.bind] at hb2
+      cases hr : checkFh raw with
+      | error e => simp [hr] at hb2
+      | ok f' =>
+        simp only [hr] at hb2
+        split at hb2
+        · split at hb2
+          · cases hb2; rfl
+          · cases hb2
+        · cases hb2; rfl
+  exact ⟨f, train, test, yF, yM, ss, ss', ps, g, ss2, l1, l3, l5, l7, hfh, hy, hsp, hyF, hyM, h1, h3, h5, h7, rfl,
+    by simp [List.append_assoc]⟩
+
+theorem stack_predict_ok (names : List String) (Fs : List Forecaster) (G : Regressor)
+    (b : Base) (ss : States Fs) (g : G.S) (fh : Option Horizon)
+    (b' : Base) (st' : Option (States Fs × G.S)) (out : Series) (log : Log)
+    (h : ((stacking names Fs G).predict (b, some (ss, g)) fh).run = .ok (((b', st'), out), log)) :
+    ∃ f ss' ps v l1 l2, b'.fh = some f ∧ b'.cutoff = b.cutoff ∧ st' = some (ss', g) ∧
+      (predictAll Fs ss none).run = .ok ((ss', ps), l1) ∧
+      (G.predict g (rowsOf (nRows ps) ps)).run = .ok (v, l2) ∧
+      out = (predIndex b.cutoff f).zip v ∧ log = l1 ++ l2 := by
+  simp only [stacking] at h
+  obtain ⟨_, hfit, h⟩ := lift_bind_eq_ok.mp h
+  obtain ⟨b1, hb1, h⟩ := lift_bind_eq_ok.mp h
+  obtain ⟨f, hf, h⟩ := lift_bind_eq_ok.mp h
+  obtain ⟨⟨ss', ps⟩, l1, l2, h1, h2, rfl⟩ := bind_eq_ok.mp h
+  obtain ⟨v, l3, l4, h3, h4, rfl⟩ := bind_eq_ok.mp h2
+  obtain ⟨heq, rfl⟩ := pure_eq_ok.mp h4
+  simp only [Prod.mk.injEq] at heq
+  obtain ⟨⟨rfl, rfl⟩, rfl⟩ := heq
+  have hfh := Base.getFh_ok hf
+  have hb : b1 = b := by
+    have hft : b.fitted = true := by
+      unfold Base.checkFitted at hfit
+      by_cases hc : b.fitted = true
+      · exact hc
+      · simp [hc] at hfit
+    unfold Base.setFhReq at hb1
+    cases fh with
+    | none => simp only [hft, ↓reduceIte, Except.ok.injEq] at hb1; exact hb1.symm
+    | some raw =>
+      simp only [bind, Except.bind] at hb1
+      cases hr : checkFh raw with
+      | error e => simp [hr] at hb1
+      | ok f' =>
+        simp only [hr, hft, ↓reduceIte] at hb1
+        split at hb1
+        · cases hb1; rfl
+        · cases hb1
+  subst hb
+  exact ⟨f, ss', ps, v, l1, l3, hfh, rfl, rfl, h1, h3, rfl, by simp⟩
+
 end SkVerif.Compose.Lem
